@@ -33,7 +33,7 @@ RULE = ("(1) EVERY .co file under the repository (exhaustive, both tiers), versi
         "nearest config.yml, default 1.0); (2) generated Colang 2.x source programs (if/elif/else, while, break/continue also outside loops, "
         "when/or when/else, and/or groups under match/await/start/send, start/await/activate/deactivate, NLD assignment, user labels, "
         "return/abort; nesting depth <= 4 quick / 6 thorough) through the real parser + initialize_flow; (3) generated Colang 2.x ASTs "
-        "(control-flow subset, depth <= 6) straight into expand_elements, compared with the Lean model Expand; (4) generated Colang 1.0 source "
+        "(control flow, groups, start/await/activate, NLD, when/or when/else; depth <= 6) straight into expand_elements, compared with the Lean model Expand; (4) generated Colang 1.0 source "
         "(if/else if/else, while, break/continue, when/else when, label/goto, any, $x = ...) through the real parser; (5) generated CoYML item "
         "trees (depth <= 6, incl. undefined/duplicate checkpoints) straight into parse_flow_elements, compared with the Lean model V1Compile. "
         "non-trivial = the compiled flow contains at least one jump target / relative offset; distinct = distinct case JSON.")
@@ -44,8 +44,8 @@ TRUSTED_BASE = [
     "the model of slide's look-ups (Closed.step) covers Goto/ForkHead/Abort/Break/Continue/CatchPatternFailure; MergeHeads' head_fork_uids look-up and scope bookkeeping are dynamic and only constrained statically (merge after fork, EndScope after BeginScope)",
 ]
 ASSUMPTIONS = [
-    "Colang 2.x compiler model (Expand) covers if/elif/else, while/break/continue; groups, when, start/await/activate are validated by the proved checker on the real output only",
-    "scope pairing is on the linear element order (every BeginScope has a later EndScope of the same name, every EndScope an earlier BeginScope), not per execution path",
+    "Colang 2.x compiler model (Expand) covers if/elif/else, while/break/continue, match/send/start/await groups, start/await/activate/deactivate, NLD assignment, when/or when/else; it starts from the DNF computed by the real normalize_element_groups (C07) and does not model the aliasing of AST objects between the copies of then-/else-bodies (such ASTs: proved checkers + oracle only)",
+    "scope pairing in `Closed` is on the linear element order; the per-path statement (no BeginScope met while the scope is held, no failing look-up) is proved per program by the certificate checker `pathSafe` on every real flow that opens a scope (<= 400 elements)",
     "a flow the loader rejects (syntax error, expansion error) is outside the property; such inputs are counted and listed",
 ]
 
@@ -203,27 +203,60 @@ def gen_v2_src(rng, depth):
 V2_OTHER = ["_log", "_print", "_priority", "_global", "dict:pass_stmt"]
 
 
-def gen_v2_ast(rng, depth, in_loop=False):
+def _g_sizes(rng):
+    return [rng.choice([1, 1, 2, 3]) for _ in range(rng.choice([1, 1, 2, 3, 4]))]
+
+
+def _g_dnf(rng, kinds):
+    return [[[rng.choice(kinds), rng.random() < 0.25] for _ in range(rng.choice([1, 1, 2, 3]))] for _ in range(rng.choice([1, 1, 2, 3]))]
+
+
+def gen_v2_ast(rng, depth, in_loop=False, dup=False, nojump=False):
+    """Stmt trees of the Lean Expand model; `dup` = inside a body the real compiler expands more than once (there the
+    generator avoids what depends on the aliasing of AST objects between the copies, see `alias_sensitive`)"""
     n = rng.choice([0, 1, 1, 2, 2, 3]) if depth < 6 else rng.choice([1, 2, 3])
     out = []
     for _ in range(n):
         r = rng.random()
-        if depth > 0 and r < 0.25:
-            out.append(["if", gen_v2_ast(rng, depth - 1, in_loop), gen_v2_ast(rng, depth - 1, in_loop) if rng.random() < 0.6 else []])
-        elif depth > 0 and r < 0.45:
-            out.append(["while", gen_v2_ast(rng, depth - 1, True)])
-        elif r < 0.62:
-            out.append([rng.choice(["break", "continue"])] if (in_loop or rng.random() < 0.3) else ["assign"])
-        elif r < 0.72:
+        if depth > 0 and r < 0.18:
+            out.append(["if", gen_v2_ast(rng, depth - 1, in_loop, dup, nojump), gen_v2_ast(rng, depth - 1, in_loop, dup, nojump) if rng.random() < 0.6 else []])
+        elif depth > 0 and r < 0.32:
+            out.append(["while", gen_v2_ast(rng, depth - 1, True, dup, nojump or dup)])
+        elif depth > 0 and r < 0.44:
+            nc = rng.choice([1, 1, 2, 3])
+            kinds = ["ev"] if dup else ["ev", "ev", "flow", "action"]
+            specs = [_g_dnf(rng, kinds) for _ in range(nc)]
+            thens = [gen_v2_ast(rng, depth - 1, in_loop, dup or len(d) >= 2, nojump) for d in specs]
+            has_else = rng.random() < 0.5
+            els = gen_v2_ast(rng, depth - 1, in_loop, dup or nc >= 2, nojump) if has_else else []
+            out.append(["when", specs, thens, els, has_else])
+        elif r < 0.54:
+            jump_ok = not nojump and (in_loop or rng.random() < 0.3)
+            out.append([rng.choice(["break", "continue"])] if jump_ok else ["assign"])
+        elif r < 0.60:
             out.append(["send"])
-        elif r < 0.82:
+        elif r < 0.66:
             out.append(["match"])
-        elif r < 0.88:
+        elif r < 0.70:
             out.append(["assign"])
-        elif r < 0.94:
+        elif r < 0.74:
             out.append(["other", rng.choice(V2_OTHER)])
-        else:
+        elif r < 0.77:
             out.append([rng.choice(["return", "abort"])])
+        elif r < 0.82:
+            out.append(["matchg", _g_sizes(rng)])
+        elif r < 0.85:
+            out.append(["sendg", _g_sizes(rng)])
+        elif r < 0.89:
+            out.append(["start", _g_dnf(rng, ["flow", "action"])])
+        elif r < 0.92:
+            out.append(["await1", rng.choice(["flow", "action"]), rng.random() < 0.3])
+        elif r < 0.96:
+            out.append(["awaitg", _g_dnf(rng, ["flow", "action"])])
+        elif r < 0.98:
+            out.append([rng.choice(["activate", "deactivate"]), rng.choice([1, 1, 2, 3])])
+        else:
+            out.append(["nld"])
     return out
 
 
@@ -370,7 +403,7 @@ def gen_cases(rng, tier):
     if tier == "quick":
         n_v2src, n_v2ast, n_v1src, n_v1items, depth = 900, 5000, 1500, 5000, 4
     else:
-        n_v2src, n_v2ast, n_v1src, n_v1items, depth = 8000, 100000, 12000, 100000, 6
+        n_v2src, n_v2ast, n_v1src, n_v1items, depth = 5000, 45000, 10000, 60000, 6
     for _ in range(n_v2src):
         cases.append({"kind": "v2src", "src": gen_v2_src(rng, rng.randrange(1, depth + 1))})
     for _ in range(n_v2ast):
@@ -605,7 +638,7 @@ def scan_v2_paths(elements, labels):
         elif t == "EndScope":
             # (slide only requires the scope to exist in flow_state.scopes, not in this head: no head-level condition here)
             push((pos + 1, scopes - {e.name}, catch))
-        elif t == "SpecOp" and e.op == "match":
+        elif t == "SpecOp":
             push((pos + 1, scopes, catch))
             fail()
         else:
@@ -613,20 +646,100 @@ def scan_v2_paths(elements, labels):
     return [probs[k] for k in sorted(probs)]
 
 
+def _atom_of(spec):
+    A = _M["A"]
+    if not isinstance(spec, A.Spec):
+        return None
+    started = spec.spec_type in (A.SpecType.FLOW, A.SpecType.ACTION) and spec.members is None
+    if started:
+        return ["flow" if spec.spec_type == A.SpecType.FLOW else "action", spec.ref is not None]
+    if spec.spec_type == A.SpecType.EVENT or spec.members is not None:
+        return ["ev", spec.ref is not None]
+    return None
+
+
+def dnf_of(spec):
+    """disjunctive normal form of a spec / group, computed by the REAL `normalize_element_groups` (C07's subject)"""
+    norm = _M["expansion"].normalize_element_groups(copy.deepcopy(spec))
+    out = []
+    for g in norm["elements"]:
+        cl = [_atom_of(a) for a in g["elements"]]
+        if any(a is None for a in cl) or not cl:
+            return None
+        out.append(cl)
+    return out or None
+
+
+def alias_sensitive(elements):
+    """True if the real output of this body depends on which copy is expanded first: the compiler expands a then-body once
+    per group of its case and an else-body once per case on the SAME AST objects; `Break.label`/`Continue.label` set while the
+    first copy of an inner loop is expanded are kept by the later copies, and a nested `when` sees the temporary refs the
+    first copy stored in its specs.  The Lean model makes every copy self-contained, so such ASTs are not compared."""
+    A = _M["A"]
+
+    def has_jump(xs):
+        for e in xs or []:
+            if isinstance(e, (A.Break, A.Continue)):
+                return True
+            if isinstance(e, A.If) and (has_jump(e.then_elements) or has_jump(e.else_elements)):
+                return True
+            if isinstance(e, A.While) and has_jump(e.elements):
+                return True
+            if isinstance(e, A.When) and (any(has_jump(t) for t in e.then_elements) or has_jump(e.else_elements)):
+                return True
+        return False
+
+    for e in elements or []:
+        if isinstance(e, A.While):
+            if has_jump(e.elements) or alias_sensitive(e.elements):
+                return True
+        elif isinstance(e, A.If):
+            if alias_sensitive(e.then_elements) or alias_sensitive(e.else_elements):
+                return True
+        elif isinstance(e, A.When):
+            for sp in e.when_specs:
+                d = dnf_of(sp)
+                if d is None or any(a[0] != "ev" for cl in d for a in cl):
+                    return True
+            if any(alias_sensitive(t) for t in e.then_elements) or alias_sensitive(e.else_elements):
+                return True
+    return False
+
+
 def stmt_of(e):
-    """unexpanded real AST element -> Stmt JSON of the Lean Expand model, or None if outside the modelled subset"""
+    """unexpanded real AST element -> Stmt JSON of the Lean Expand model, or None if outside the modelled language"""
     A = _M["A"]
     if isinstance(e, dict):
         return ["other", "dict:" + str(e.get("_type"))]
     if isinstance(e, A.SpecOp):
-        if isinstance(e.spec, A.Spec) and e.return_var_name is None and (e.spec.spec_type == A.SpecType.EVENT or e.spec.members is not None):
-            if e.op == "send":
-                return ["send"]
-            if e.op == "match":
-                return ["match"]
+        single = isinstance(e.spec, A.Spec)
+        d = dnf_of(e.spec)
+        if d is None:
+            return None
+        atoms = [a for cl in d for a in cl]
+        if e.op in ("send", "match"):
+            if any(a[0] != "ev" for a in atoms) or e.return_var_name is not None:
+                return None
+            if single:
+                return [e.op]
+            return ["matchg" if e.op == "match" else "sendg", [len(cl) for cl in d]]
+        if e.op == "start":
+            if any(a[0] == "ev" for a in atoms) or e.return_var_name is not None:
+                return None
+            return ["start", d]
+        if e.op == "await":
+            if any(a[0] == "ev" for a in atoms):
+                return None
+            if single:
+                return ["await1", atoms[0][0], e.return_var_name is not None]
+            return None if e.return_var_name is not None else ["awaitg", d]
+        if e.op in ("activate", "deactivate"):
+            if len(d) != 1 or any(a[0] != "flow" for a in atoms):
+                return None
+            return [e.op, len(atoms)]
         return None
     if isinstance(e, A.Assignment):
-        return None if re.search(NLD, e.expression) else ["assign"]
+        return ["nld"] if re.search(NLD, e.expression) else ["assign"]
     if isinstance(e, A.If):
         t = stmts_of(e.then_elements)
         f = stmts_of(e.else_elements or [])
@@ -634,6 +747,18 @@ def stmt_of(e):
     if isinstance(e, A.While):
         b = stmts_of(e.elements)
         return None if b is None else ["while", b]
+    if isinstance(e, A.When):
+        specs = [dnf_of(sp) for sp in e.when_specs]
+        thens = [stmts_of(t) for t in e.then_elements]
+        els = stmts_of(e.else_elements or [])
+        if any(x is None for x in specs) or any(x is None for x in thens) or els is None:
+            return None
+        for d, t in zip(specs, e.then_elements):
+            if len(d) >= 2 and alias_sensitive(t):
+                return None
+        if len(specs) >= 2 and alias_sensitive(e.else_elements):
+            return None
+        return ["when", specs, thens, els, e.else_elements is not None]
     if isinstance(e, A.Break):
         return ["break"] if e.label is None else None
     if isinstance(e, A.Continue):
@@ -683,9 +808,47 @@ def build_v2_ast(stmts):
             out.append(A.If(expression="$x", then_elements=build_v2_ast(s[1]), else_elements=build_v2_ast(s[2]) if s[2] else None))
         elif k == "while":
             out.append(A.While(expression="$x", elements=build_v2_ast(s[1])))
+        elif k in ("matchg", "sendg"):
+            out.append(A.SpecOp(op="match" if k == "matchg" else "send", spec=_group_of([[["ev", False]] * n for n in s[1]], True)))
+        elif k == "start":
+            out.append(A.SpecOp(op="start", spec=_group_of(s[1], False)))
+        elif k == "await1":
+            out.append(A.SpecOp(op="await", spec=_spec_of([s[1], False]), return_var_name="v" if s[2] else None))
+        elif k == "awaitg":
+            out.append(A.SpecOp(op="await", spec=_group_of(s[1], True)))
+        elif k in ("activate", "deactivate"):
+            out.append(A.SpecOp(op=k, spec=_group_of([[["flow", False]] * s[1]], False)))
+        elif k == "nld":
+            out.append(A.Assignment(key="v", expression='..."extract a value"'))
+        elif k == "when":
+            out.append(A.When(when_specs=[_group_of(d, False) for d in s[1]], then_elements=[build_v2_ast(t) for t in s[2]],
+                              else_elements=build_v2_ast(s[3]) if s[4] else None))
         else:
             raise ValueError(k)
     return out
+
+
+def _spec_of(atom):
+    A = _M["A"]
+    k, ref = atom
+    r = _M["expansion"]._create_ref_ast_dict_helper("$r") if ref else None
+    if k == "flow":
+        return A.Spec(name="helper a", spec_type=A.SpecType.FLOW, arguments={}, ref=r)
+    if k == "action":
+        return A.Spec(name="UtteranceBotAction", spec_type=A.SpecType.ACTION, arguments={}, ref=r)
+    return A.Spec(name="Ev1", spec_type=A.SpecType.EVENT, arguments={}, ref=r)
+
+
+def _group_of(dnf, always_dict):
+    """a spec (single atom) or a group dict in or-of-ands shape"""
+    def clause(cl):
+        if len(cl) == 1 and not always_dict:
+            return _spec_of(cl[0])
+        return {"_type": "spec_and", "elements": [_spec_of(a) for a in cl]}
+
+    if len(dnf) == 1:
+        return clause(dnf[0])
+    return {"_type": "spec_or", "elements": [_spec_of(cl[0]) if len(cl) == 1 else {"_type": "spec_and", "elements": [_spec_of(a) for a in cl]} for cl in dnf]}
 
 
 def compile_v2_flows(flows, with_stmts):
@@ -940,6 +1103,11 @@ def run_impl(case):
 
 # ----------------------------------------------------------------------------- model side
 
+def _wants_pathsafe(f):
+    """flows that open scopes (when / await groups), of moderate size: run the PROVED path-level checker on the real output"""
+    return len(f["prog"]) <= 400 and any(p[0] == "begin" for p in f["prog"]) and not f["oracle"]
+
+
 def model_requests(case, obs):
     reqs = []
     if obs.get("witness"):
@@ -948,6 +1116,8 @@ def model_requests(case, obs):
         if obs["version"] == "2.x":
             if "prog" in f:
                 reqs.append({"m": "C12.closed", "prog": f["prog"], "lookups": [k for k, _ in f["labels"]]})
+                if _wants_pathsafe(f):
+                    reqs.append({"m": "C12.pathsafe", "prog": f["prog"]})
                 if "stmts" in f:
                     reqs.append({"m": "C12.expand", "stmts": f["stmts"]})
         else:
@@ -1032,6 +1202,10 @@ def compare(case, obs, mouts):
                 return f"flow {f['id']}: Lean checker says closed={m['closed']} ({m['why']}), from-scratch scan says {f['oracle'][:1] or 'closed'}"
             if m["lookups"] != [v for _, v in f["labels"]]:
                 return f"flow {f['id']}: model label table {m['lookups']} differs from FlowConfig.element_labels {f['labels']}"
+            if _wants_pathsafe(f):
+                mp = next(it)
+                if mp["safe"] != (not f.get("oracle_paths")):
+                    return f"flow {f['id']}: proved path checker says safe={mp['safe']} ({mp['states']} heads), path-level scan says {f.get('oracle_paths', [])[:1] or 'no scope re-opened'}"
             if "stmts" in f:
                 m2 = next(it)
                 if canon_labels(m2["prog"]) != canon_labels(f["prog"]):
